@@ -72,7 +72,9 @@ func (w *writer) NeedsRollover(rollover int64) bool {
 	// Rollover is intentionally based on data-file size only, not including the
 	// index. The index grows proportionally; callers set the threshold based on
 	// message-data volume, not total on-disk cost.
-	return w.messages.Size() > rollover
+	// An empty segment is never rolled over: its successor would get the same name. This only
+	// matters for thresholds smaller than the file header.
+	return w.index.Len() > 0 && w.messages.Size() > rollover
 }
 
 func (w *writer) Publish(msgs []message.Message) (int64, error) {
